@@ -125,9 +125,11 @@ class IntermediateCodeGen(AbstractCodeGen):
         outDict = OrderedDict()
         outDict['class'] = 'imports'
         for module in sorted(imports):
+            # unique symbols in the order of their appearance
             symbols = []
-            for symbol in set(imports[module]):
-                symbols.append(symbol)
+            for symbol in imports[module]:
+                if symbol not in symbols:
+                    symbols.append(symbol)
 
             if symbols:
                 self._seenSyms.update(
